@@ -36,6 +36,7 @@ fn render_md(d: &Doc, di: usize, marks: &Path) -> String {
             'C' => s.push_str(&format!("$ {}; echo foo; (exit {})\nfoo\n", mark, t.code)),
             'E' => s.push_str(&format!("$ {}; echo foo; (exit {})\nfoo\n[{}]\n", mark, t.code, t.code)),
             'S' => s.push_str(&format!("$ {}; (exit {})\n", mark, effective_skip(d, t))),
+            'Q' => s.push_str(&format!("$ {}; exit {}\n", mark, effective_skip(d, t))),
             'T' | 'G' => s.push_str(&format!("$ {}; sleep 3\n", mark)),
             'D' => s.push_str(&format!("$ {}; sleep 0.05 &\n", mark)),
             'K' => s.push_str(&format!("$ {}; kill -9 $$\n", mark)),
@@ -58,6 +59,7 @@ fn render_cram(d: &Doc, di: usize, marks: &Path) -> String {
             'C' => s.push_str(&format!("  $ {}; echo foo; (exit {})\n  foo\n", mark, t.code)),
             'E' => s.push_str(&format!("  $ {}; echo foo; (exit {})\n  foo\n  [{}]\n", mark, t.code, t.code)),
             'S' => s.push_str(&format!("  $ {}; (exit {})\n", mark, 80)),
+            'Q' => s.push_str(&format!("  $ {}; exit {}\n", mark, 80)),
             'G' => s.push_str(&format!("  $ {}; sleep 3\n", mark)),
             'K' => s.push_str(&format!("  $ {}; kill -9 $$\n", mark)),
             _ => unreachable!(),
@@ -88,7 +90,7 @@ pub fn gen_run(r: &mut Rng) -> (Vec<Doc>, Option<u64>) {
                 2 => t.kind = 'O',
                 3 => { t.kind = 'C'; t.code = *r.pick(&[1, 2, 80, 255]); }
                 4 | 5 => { t.kind = 'E'; t.code = *r.pick(&[1, 2, 3, 80]); }
-                6 => t.kind = 'S',
+                6 => t.kind = if r.chance(1, 3) { 'Q' } else { 'S' },
                 7 => if slow_budget && !slow_used { slow_used = true; if cram || r.chance(1, 2) { t.kind = 'G'; if cram { cli_timeout = Some(1); } else { d.total_ms = Some(800); } } else { t.kind = 'T'; } },
                 8 => if !cram { t.kind = 'D' },
                 9 => if r.chance(1, 3) { t.kind = 'K' },
